@@ -464,6 +464,17 @@ namespace Reconnect.E2E
 open ConnScript
 open Spec.Reconnect (outcomeAt anyConnects callClauses nextSt evClauses liveAfter clauses holds isResp served)
 
+theorem callClauses_mono {outs : List Outcome} {s : Spec.Reconnect.St} {k : CallKind} {res : CallRes}
+    {a' : Nat} (h : (callClauses outs s k res a').all (·.2) = true) : s.a ≤ a' := by
+  simp only [callClauses, List.all_cons, Bool.and_eq_true, decide_eq_true_eq] at h
+  exact h.2.1
+
+/-- The oracle's next state after an ordinary call depends on the state before only through a
+deadline expiry, which the model never produces for such a call. -/
+theorem nextSt_callRes (s1 s2 : Spec.Reconnect.St) (fixed : Bool) (w : World) (res : Res) (a : Nat) :
+    nextSt s1 (callRes fixed w res) a = nextSt s2 (callRes fixed w res) a := by
+  cases res <;> rfl
+
 theorem runOps_ok (outs : List Outcome) (ops : List Op) :
     ∀ (r : R) (w : World) (s : Spec.Reconnect.St), Inv outs r w s →
       (evClauses outs s ops (runOps true r w ops)).all (·.2) = true := by
@@ -492,6 +503,22 @@ theorem runOps_ok (outs : List Outcome) (ops : List Op) :
       have hstep := callK_step outs r w s .peerDies h
       simp only [runOps, callK, evClauses, List.all_append, Bool.and_eq_true]
       exact ⟨hstep.1, ih _ _ _ hstep.2⟩
+    | pair =>
+      have h1 := call_step outs r w s h
+      have h2 := call_step outs _ _ _ h1.2
+      have m1 := callClauses_mono h1.1
+      have m2 := callClauses_mono h2.1
+      simp only [nextSt] at m2
+      simp only [runOps, evClauses, List.all_cons, Bool.and_eq_true]
+      refine ⟨?_, ih _ _ _ ?_⟩
+      · unfold Spec.Reconnect.pairOk
+        rw [List.any_eq_true]
+        refine ⟨(serve r (answersFor w r)).1.made - s.a, by simp; omega, ?_⟩
+        have : s.a + ((serve r (answersFor w r)).1.made - s.a) = (serve r (answersFor w r)).1.made := by omega
+        rw [this, List.all_append, Bool.and_eq_true]
+        exact ⟨h1.1, h2.1⟩
+      · rw [nextSt_callRes _ (nextSt s (callRes true w (serve r (answersFor w r)).2.2) (serve r (answersFor w r)).1.made)]
+        exact h2.2
 
 theorem head_eq_outcomeAt (outs : List Outcome) :
     ({ outcomes := outs, alive := none } : World).next = outcomeAt outs 1 := by
